@@ -1122,6 +1122,53 @@ func ruleChannelClone(r *Report) {
 				ok = true
 			}
 		}
+		if !ok {
+			// … or copies them field by field in the loop: every field of Buffer is stored into a
+			// buffer that is not the original, and its slices are freshly made
+			stored := map[string]bool{}
+			fresh := true
+			allInstrs(fn, func(ins ssa.Instruction) {
+				st, isSt := ins.(*ssa.Store)
+				if !isSt || !reachAvoiding(ins.Block(), ins.Block(), nil, nil) {
+					return
+				}
+				fr, isF := fieldOf(st.Addr)
+				if !isF || fr.Struct != "commit.Buffer" {
+					return
+				}
+				// the target is not one of the commit's own buffers
+				if dependsOn(fr.X, func(z ssa.Value) bool {
+					f2, ok := loadedField(z)
+					return ok && f2.Struct == "commit.Commit" && f2.Field == "Updates" && sameExpr(f2.X, fn.Params[0])
+				}, 6) {
+					fresh = false
+					return
+				}
+				stored[fr.Field] = true
+				if _, isSlice := st.Val.Type().Underlying().(*types.Slice); isSlice {
+					isMake := func(z ssa.Value) bool { _, ok := z.(*ssa.MakeSlice); return ok }
+					fromBuf := func(z ssa.Value) bool {
+						f2, ok := loadedField(z)
+						return ok && f2.Struct == "commit.Buffer"
+					}
+					if !dependsOnSlice(st.Val, isMake, 6) || dependsOnSlice(st.Val, fromBuf, 6) {
+						fresh = false
+					}
+				}
+			})
+			all := fresh
+			if nt := r.P.NamedType("commit", "Buffer"); nt != nil {
+				bs := nt.Underlying().(*types.Struct)
+				for i := 0; i < bs.NumFields(); i++ {
+					if n := bs.Field(i).Name(); n != "_" && !stored[n] {
+						all = false
+					}
+				}
+			} else {
+				all = false
+			}
+			ok = all
+		}
 		h.Check(ok, "(*commit.Commit).Clone/buffers", r.P.Pos(fn.Pos()), "clones each buffer in the loop over Updates", "Commit.Clone does not clone the update buffers")
 	}
 	if fn := r.Anchor("(*commit.Log).Append"); fn != nil {
